@@ -116,6 +116,16 @@ def extract(check, repo, modname, clsname, methods, config, key, spec_init=None)
                 else:
                     succ.add(ns)
             row[label] = ("to", frozenset(succ))
+            # verify() that fails on the MAC comparison (ValueError) must leave the object where a successful verify()
+            # leaves it: "digest() and verify() ... never unlock a forbidden operation"
+            if mname in ("verify", "hexverify"):
+                for o in res.raises():
+                    if o.snap and o.exc and "ValueError" in Interp(repo).exc_mro(o.exc, m2):
+                        fs = _as_state(o.snap.get("_next"))
+                        if fs is not None and succ and not any(fs <= ns for ns in succ):
+                            problems.append((s, label, fn, m2,
+                                             "a failing %s (MAC check, ValueError) leaves the object in state %s, a successful one in %s" % (
+                                                 label, fmt_state(fs), ",".join(fmt_state(x) for x in succ))))
             for ns in succ:
                 if ns not in table:
                     todo.append(ns)
